@@ -146,7 +146,7 @@ Print Assumptions C09_vardecl_effects_partial.
 (* ---- "either supported C compiler": operands of a plain C operator are unsequenced, so the result of
    x + f() with f assigning x depends on the compiler (known finding; the sequencing model is coq/C01/Order.v,
    the positive statement for expressions whose functions write nothing is C01_order_preserved_partial) ---- *)
-Theorem C09_compiler_independent_refuted : ~ compiler_independent_full.
+Theorem C09_compiler_independent_refuted : forall pol, ~ compiler_independent_full pol.
 Proof. exact compiler_independent_refuted. Qed.
 Print Assumptions C09_compiler_independent_refuted.
 
